@@ -131,6 +131,12 @@ fn make_project(rng: &mut Rng) -> Project {
         // the same declaration under two doc comments (descriptions are part of the emitted code)
         "/** first wording */\nexport type A = { /** field doc */ a: string };\n",
         "/** other wording */\nexport type A = { /** field doc, edited */ a: string };\n",
+        // doc comments on lines of their own (a same-line comment is not attached): on members, on a
+        // declaration that is not exported, on an interface member
+        "/** documented */\nexport type A = {\n  /** Stable id. */\n  a: string;\n  /** How often. */\n  n?: number;\n};\n",
+        "/** documented */\nexport type A = {\n  /** Stable id, reworded. */\n  a: string;\n  n?: number;\n};\n",
+        "/** A helper nobody exports. */\ntype Inner = {\n  /** inner field */\n  i: number;\n};\nexport type A = { inner: Inner; a: string };\n",
+        "/** Shape of a. */\ninterface Shape {\n  /** the a of it */\n  a: string;\n}\nexport type A = Shape;\n",
     ];
     let a_unresolvable = vec![
         "import { Q } from \"./missing\";\nexport type A = { q: Q };\n",
@@ -145,11 +151,13 @@ fn make_project(rng: &mut Rng) -> Project {
         "export type B = { b: boolean };\n",
         "export type B = [string, number];\n",
         "import { A } from \"./a\";\nexport type B = { back: A };\n",
+        "export type B = {\n  /** a flag, documented on its own line */\n  b: boolean;\n};\n",
     ];
     let c_valid = vec![
         "export type C = { c: 1 };\n",
         "export type C = string[];\n",
         "export type C = { c: 2; d?: null };\nexport type NotThere = \"now it is\";\n",
+        "/** not exported, documented */\ntype CInner = {\n  /** the one */\n  c: 1;\n};\nexport type C = CInner;\n",
     ];
     // texts that parse but declare nothing: an emptied file, white space, a comment, `export {}`, a BOM
     let blank = vec!["", "\n", "   \n\n", "// nothing here any more\n", "export {};\n", "\u{feff}"];
